@@ -1180,10 +1180,87 @@ func c08_7(c *core.Ctx, p *core.Prog) {
 					kind = first + " — judged at the " + fmt.Sprint(sites) + " call site(s) of " + fn.Name()
 				}
 			}
+			note := ""
+			if kind == "" && progressNote != "" {
+				note = " [" + progressNote + "]"
+			}
+			progressNote = ""
 			c.Check(kind != "", key, pos, core.FuncName(fn), "schema update requested together with: "+kind,
-				"a schema update is requested on a path that changes nothing the rebuild depends on (no optional mark removed, no index width advanced, dictionary not disabled, no metadata change, no one-shot latch): the rebuild loop re-runs the same deterministic code, requests the same update again and ends in the 'Too many consecutive schema updates' panic")
+				"a schema update is requested on a path that changes nothing the rebuild depends on (no optional mark removed, no index width advanced, dictionary not disabled, no metadata change, no one-shot latch): the rebuild loop re-runs the same deterministic code, requests the same update again and ends in the 'Too many consecutive schema updates' panic"+note)
 		})
 	}
+}
+
+// latchClearedElsewhere: a latch is a progress argument only while it stays set until the decision function itself
+// finds a reason to clear it. A store into the field anywhere else in the package (other than the zero value of a
+// literal under construction) — a counter-revert or builder-rebuild hook that clears "reset already requested" —
+// makes the next attempt of the rebuild loop request the same update again. progressNote says so in the report.
+var progressNote string
+
+func latchClearedElsewhere(fn *ssa.Function, latch *types.Var) bool {
+	if fn.Pkg == nil {
+		return false
+	}
+	own := map[*ssa.Function]bool{fn: true}
+	// small helpers of the decision function count as the function itself
+	core.EachCall(fn, func(ci ssa.CallInstruction) {
+		if h := ci.Common().StaticCallee(); h != nil && h.Pkg == fn.Pkg {
+			own[h] = true
+		}
+	})
+	for g := range ssautilAllOf(fn.Pkg) {
+		if own[g] {
+			continue
+		}
+		found := ""
+		core.EachInstr(g, func(i ssa.Instruction) {
+			st, ok := i.(*ssa.Store)
+			if !ok {
+				return
+			}
+			fa, ok := st.Addr.(*ssa.FieldAddr)
+			if !ok || core.FieldVar(fa) != latch || litRoot(st.Addr) {
+				return
+			}
+			found = core.FuncName(g)
+		})
+		if found != "" {
+			progressNote = "the latch " + latch.Name() + " is also written in " + found + ": cleared there, the decision function requests the same update again on the next attempt"
+			return true
+		}
+	}
+	return false
+}
+
+// ssautilAllOf: the functions and methods declared in pkg (with their closures).
+func ssautilAllOf(pkg *ssa.Package) map[*ssa.Function]bool {
+	out := map[*ssa.Function]bool{}
+	var add func(f *ssa.Function)
+	add = func(f *ssa.Function) {
+		if f == nil || out[f] {
+			return
+		}
+		out[f] = true
+		for _, a := range f.AnonFuncs {
+			add(a)
+		}
+	}
+	for _, m := range pkg.Members {
+		switch x := m.(type) {
+		case *ssa.Function:
+			add(x)
+		case *ssa.Type:
+			for _, t := range []types.Type{x.Type(), types.NewPointer(x.Type())} {
+				ms := pkg.Prog.MethodSets.MethodSet(t)
+				for k := 0; k < ms.Len(); k++ {
+					if f := pkg.Prog.MethodValue(ms.At(k)); f != nil && f.Pkg == pkg {
+						add(f)
+					}
+				}
+			}
+		}
+	}
+	return out
 }
 
 // returnsOnlyWhenClear: every return of the constant k in h is under a test that found the bool field clear.
@@ -1295,7 +1372,7 @@ func progressKind(fn *ssa.Function, inc *ssa.Call, also func(pred func(ssa.Instr
 		}
 		latch = core.FieldVar(fa)
 		return true
-	}) && latch != nil {
+	}) && latch != nil && !latchClearedElsewhere(fn, latch) {
 		for _, b := range fn.Blocks {
 			iff := core.IfOf(b)
 			if iff == nil {
